@@ -14,9 +14,12 @@ func init() {
 			{ID: "ha.failover_reentry", Pkg: "github.com/codelaboratoryltd/bng/pkg/ha", File: "ha_failover_reentry.go",
 				Bound: "a standby with FailoverDelay 20 ms, GracePeriod 120 ms and real timers; partner-down report followed by 0, 1 or 2 ForceFailover commands at offsets {0, 10, 30, 60, 100, 170} ms, and two simultaneous commands without a report: 34 scenarios",
 				Claim: "after everything has settled the node is active, the role-change callback was called exactly once, exactly one completed event was emitted, failoversCompleted is 1 and the controller is not left in progress (the oracle does not depend on the timing achieved)"},
+			{ID: "ha.failover_stale_timer", Pkg: "github.com/codelaboratoryltd/bng/pkg/ha", File: "ha_failover_stale_timer.go",
+				Bound: "every sequence of partner-down / partner-up reports of length 1..6 on a real controller (FailoverDelay 1 h, so real timers do not fire); the callback of every arming noted along the way is run at the end, as the timer's closure would run it, on its own replica of the history: 321 callbacks",
+				Claim: "the callback promotes exactly when no partner-up report followed the report that armed its timer (a callback that outlived a cancellation or a re-arming does nothing; one whose partner stayed down promotes)"},
 		},
 		Undecided: []string{
-			"timer semantics: that executeFailover runs only FailoverDelay after the partner-down report, and that Timer.Stop prevents it, is outside the contracts (time.AfterFunc firing vs Stop, goroutine scheduling). By inspection the clause 'down continuously for the configured delay' can be violated: a timer callback that has fired but not yet taken c.mu is not distinguished from the current timer (no generation counter), so down/up/down lets the stale callback promote immediately (spec/replays/inspection_C14_stale_timer_and_reentry.go, part 1)",
+			"timer semantics: that the timer's closure runs only FailoverDelay after the partner-down report is the timer's business (time.AfterFunc, goroutine scheduling) and outside the contracts. What the controller adds is decided: every arming and every cancellation starts a new generation (handleHealthEvent), and an invocation carrying an older generation changes nothing (executeFailover) -- a callback that had fired but not yet taken c.mu used to be indistinguishable from the current timer, so down/up/down let it promote at once (found by inspection, spec/replays/inspection_C14_stale_timer_and_reentry.go part 1; repaired by 9375239); that the closure passes the generation it captured at the arming is watched only by the bounded stand-in ha.failover_stale_timer's replica of that call",
 			"'each promotion emits exactly one completed event' across invocations: executeFailover used to accept state in-progress from a second invocation arriving during the grace period (timer + ForceFailover, or two commands), which promoted again (found by inspection, spec/replays/inspection_C14_stale_timer_and_reentry.go part 2; repaired by d51cde6). Now decided per invocation by contract (an invocation that finds failoverRunning set changes nothing; the flag is held from the first critical section to the one that ends the attempt) and, for real overlapping invocations, watched by the bounded stand-in ha.failover_reentry; there is still no ghost event log",
 			"the health monitor's thresholds (when partner-down / partner-up events are produced) and the liveness gap after a failed role-change callback (state returns to normal while the partner is still down and the monitor emits partner-down only on the healthy->unhealthy transition, so no new promotion is ever scheduled)",
 			"notifyHandlers is called with c.mu held in handleHealthEvent/initiateFailover/initiateFailback (a handler calling back into the controller deadlocks) and WITHOUT it in executeFailover/executeFailback (unsynchronised read of c.handlers): concurrency aspects not decided",
